@@ -108,3 +108,8 @@ Definition star_reports (m e : bytes) (t : N) (rnd : bytes) (clients : list (opt
   | Panic => Panic
   end.
 End WithF.
+
+
+(* thin wrappers around strobe_digest are unfolded first *)
+Strategy -10 [sample_local digest derive_random_value r0 r1 r2].
+Strategy 100 [star_reports ct_new ct_decrypt].
